@@ -11,6 +11,8 @@ CLAIMED.update({
  "C08": ("seqx", "model_checking", "Every history up to the depth bound over Set/Delete, SetCollection, Flush, FlushRevert and Reopen (0, 1, many flushes; reverts past the first flush; unflushed changes pending; across re-opens) plus a memory-only profile. Termination is decided by a per-call step budget on the instrumented synchronisation/atomic/file operations, not by a wall clock.", "5.C08", "explicit-state search over operation histories with a flush-stack model and a step-budget hang oracle"),
  "C10": ("seqx", "model_checking", "Every history up to the depth bound over two stores sharing the process-wide free lists, with snapshots, replaced/recreated collections, an iterator left open across operations and mutations nested inside visitor callbacks; oracle 1 inspects the free list directly (no freed node reachable from an open handle), oracle 2 forces reuse of everything freed and then compares every open handle and every open iterator with the model.", "5.C10", "explicit-state search over multi-store histories with direct free-list inspection and forced reuse"),
  "C12": ("seqx", "model_checking", "Every history up to the depth bound over SetCollection (new/existing names, three comparators), RemoveCollection (present/absent), mutations through the registered handle, Flush, Reopen and a snapshot; names, contents, isolation of other collections and of the snapshot, and durability-at-Flush-only are compared with the model at the end of every history.", "5.C12", "explicit-state search over operation histories against a reference map of collections"),
+ "C15": ("seqx", "model_checking", "Every history up to the depth bound over mutations, lookups in both value modes, Exist, Min, visits with and without early stop, an iterator closed early, eviction, flush, re-open, collection removal/replacement and snapshots, followed by closing snapshots and store in both orders; counting ItemAlloc/ItemAddRef/ItemDecRef callbacks decide: no count below zero, every item handed out or reachable from an open handle (side-effect-free walk of the cached tree) has a positive count, all counts zero after everything is closed and all producer goroutines have quiesced.", "5.C15", "explicit-state search over operation histories with counting callbacks and cached-tree introspection"),
+ "C16": ("seqx", "model_checking", "Exhaustive product over collection sizes (every n in a small range, the sizes around 1024/2048/3072), store kinds (memory, flushed+evicted, re-opened), priority patterns, key sets and APIs: Len, VisitItemsAscendBlockEx with nil/identity/reverse/rotate and (small n) every block permutation, VisitItemsRandom with every answer sequence of the random source for small n and every single deviation from the default sequence above; oracle: Len = n and every key presented exactly once.", "5.C16", "exhaustive enumeration of sizes x configurations x random-source answers on the implementation"),
 })
 NA_REASON = "check not built yet in this round (engine under construction); will be claimed when its check exists"
 ALL = ["C%02d" % i for i in range(1, 20)]
